@@ -387,7 +387,7 @@ fn off_key(ts: u64, wall: u64) -> String {
     if d < -100_000 { "far_past".into() } else if d > 100_000 { "far_future".into() } else { d.to_string() }
 }
 
-async fn direct_step(ctx: &mut Ctx, st: &Value, sr: &mut Rng, victim: &simnet::SimNode, dht: &std::sync::Arc<tokio::sync::RwLock<saorsa_core::dht::DhtCoreEngine>>, model: &mut BTreeMap<[u8; 32], Vec<u8>>, i: u64) {
+async fn direct_step(ctx: &mut Ctx, st: &Value, sr: &mut Rng, victim: &simnet::SimNode, dht: &std::sync::Arc<saorsa_core::verif_hooks::YieldingRwLock<saorsa_core::dht::DhtCoreEngine>>, model: &mut BTreeMap<[u8; 32], Vec<u8>>, i: u64) {
     let which = st["direct"].as_str().unwrap_or("record");
     match which {
         "record" | "record_big" => {
